@@ -1513,6 +1513,7 @@ _hostlist_create_bracketed(const char *hostlist, char *sep, char *r_op)
 
     while ((tok = _next_tok(sep, &str)) != NULL) {
         strncpy(cur_tok, tok, sizeof (cur_tok) - 1);
+        cur_tok[sizeof (cur_tok) - 1] = '\0';
 
         if ((p = strchr(tok, '[')) != NULL) {
             char *q, *prefix = tok;
